@@ -182,7 +182,14 @@ Section Transparent.
     intros Hc rt nid o p r H Hlf. unfold field_step in *.
     destruct (name_eqb (o_name (xo o)) N_typename).
     { inversion H; subst r. eexists. split; [reflexivity|]. unfold sim; cbn; auto. }
-    destruct (obj_field_ty S rt (o_name (xo o))) as [t|]; [|discriminate].
+    destruct (declared_ty S rt o) as [t|].
+    2:{ destruct (ext_branch ch o) eqn:Ebc.
+        - destruct (lookup_ret S (xo_st o) (o_name (xo o))); [discriminate|].
+          injection H as <-. cbn in Hlf. discriminate.
+        - assert (Hch : ch = []).
+          { unfold ext_branch in Ebc. apply orb_false_elim in Ebc. destruct Ebc as [E1 _].
+            destruct ch; [reflexivity|discriminate]. }
+          subst ch. rewrite Ebc. injection H as <-. eexists. split; [reflexivity|]. unfold sim; cbn; auto. }
     assert (Hbody : forall r', field_body q S w c nid o (p ++ [PF (o_key (xo o))]) t = Ok r' -> x_lf r' = false ->
               exists r0, (if ext_branch [] o then
                             match lookup_ret S (xo_st o) (o_name (xo o)) with
@@ -444,7 +451,10 @@ Section Events.
   Proof.
     intros Hc rt nid o p r H. unfold field_step in H.
     destruct (name_eqb (o_name (xo o)) N_typename); [injection H as <-; apply inv_empty|].
-    destruct (obj_field_ty S rt (o_name (xo o))) as [t|]; [|discriminate].
+    destruct (declared_ty S rt o) as [t|].
+    2:{ destruct (ext_branch ch o).
+        - destruct (lookup_ret S (xo_st o) (o_name (xo o))); [discriminate|]. injection H as <-. apply inv_empty.
+        - injection H as <-. apply inv_empty. }
     (* the body: exactly one resolver invocation of its own *)
     assert (Hbody : forall r', field_body q S w c nid o (p ++ [PF (o_key (xo o))]) t = Ok r' ->
               nested ch (x_ev r') /\
@@ -780,8 +790,8 @@ Definition d_mut : document :=
 Definition d_query : document :=
   {| doc_ops := [{| op_name := None; op_ty := OpQuery; op_vars := []; op_dirs := [];
                     op_sels := [SField None 6 [] [] []; SField (Some 8) 7 [] [] []] |}]; doc_frags := [] |}.
-Definition cf_intro (k : N) : cfg := {| c_k := k; c_valid := true; c_intro := true; c_empty := 99 |}.
-Definition cf_norm (k : N) : cfg := {| c_k := k; c_valid := true; c_intro := false; c_empty := 99 |}.
+Definition cf_intro (k : N) : cfg := {| c_k := k; c_valid := true; c_intro := true; c_empty := 99; c_fast := false |}.
+Definition cf_norm (k : N) : cfg := {| c_k := k; c_valid := true; c_intro := false; c_empty := 99; c_fast := false |}.
 
 (* `mutation { id }` as an introspection-only request: with one pass-through
    extension the response is an error, without it {"id": null} *)
@@ -794,6 +804,25 @@ Theorem transparent_refuted :
     r0 = Some {| rs_data := VObj [(6, VNull)]; rs_errors := []; rs_trace := [] |}.
 Proof.
   exists quirks_today, S0, w0, d_mut, (cf_intro 1), 10%nat.
+  eexists _, _, _, _. repeat split; vm_compute; reflexivity.
+Qed.
+
+(* `{ nope }` accepted by validation mode Fast: null without extensions, an
+   error with one *)
+Definition d_unknown : document :=
+  {| doc_ops := [{| op_name := None; op_ty := OpQuery; op_vars := []; op_dirs := [];
+                    op_sels := [SField None 9 [] [] []; SField None 6 [] [] []] |}]; doc_frags := [] |}.
+Definition cf_fast (k : N) : cfg := {| c_k := k; c_valid := true; c_intro := false; c_empty := 99; c_fast := true |}.
+Theorem transparent_refuted_fast :
+  exists q S w d cf n r1 e1 r0 e0,
+    c_fast cf = true /\
+    x_request q S w (Some d) None [] cf n = Ok (r1, e1, true) /\
+    x_request q S w (Some d) None [] (with_k cf 0) n = Ok (r0, e0, false) /\
+    oresp_same r1 r0 = false /\
+    r1 = Some {| rs_data := VNull; rs_errors := [[]]; rs_trace := [] |} /\
+    r0 = Some {| rs_data := VObj [(9, VNull); (6, VInt 0)]; rs_errors := []; rs_trace := [(0, 6)] |}.
+Proof.
+  exists quirks_today, S0, w0, d_unknown, (cf_fast 1), 10%nat.
   eexists _, _, _, _. repeat split; vm_compute; reflexivity.
 Qed.
 
